@@ -363,7 +363,7 @@ class Shadow:
                 if op[2] or ck not in self.defs:
                     self.defs[ck] = t
                     self.stale = True
-        elif k in ("refresh", "cleanup", "verify", "freeze", "unfreeze"):
+        elif k in ("refresh", "cleanup", "verify", "freeze", "unfreeze", "query"):
             pass
         else:
             raise ValueError(op)
